@@ -153,7 +153,7 @@ def q(xs):
     return ", ".join('"%s"' % x for x in sorted(xs))
 
 
-def validate(ctx, events, mode, name, default=2, policyok=("p1", "p2", "p3")):
+def validate(ctx, events, mode, name, default=2, policyok=None):
     """Validates a concatenation of recorded runs against TraceAgent; returns (accepted, line, detail)."""
     clients = {e["c"] for e in events if e.get("c")} | {"c1"}
     users = set()
@@ -176,6 +176,9 @@ def validate(ctx, events, mode, name, default=2, policyok=("p1", "p2", "p3")):
         e.pop("ts", None)
         e.pop("checkerr", None)
     trace = "".join(json.dumps(e, separators=(",", ":")) + "\n" for e in events)
+    if policyok is None or (policyok and "/" not in list(policyok)[0]):     # tags only: the verdict does not depend on the user
+        tags = policyok if policyok is not None else ("p1", "p2", "p3")
+        policyok = ["%s/%s" % (u, t) for u in users for t in tags]
     cfg = TRACE_CFG % {"clients": q(clients), "users": q(users), "default": default,
                        "policyok": q(policyok), "mode": mode}
     res = ctx.run_tlc("MC_TraceAgent.tla", "trace.cfg", workers=1, timeout=900, name="trace-" + name,
@@ -331,7 +334,7 @@ def judge(ctx, scenarios, results, events, name, default_prop):
         reset = evs[0]
         idle = next((e for e in reversed(evs) if e["ev"] == "idle"), None)
         mode = MODE_NAME.get(sc["mode"], "remote")
-        key = (mode, tuple(reset.get("policyok") or ("p1", "p2", "p3")), sc.get("default", 2))
+        key = (mode, tuple(reset.get("policyok") or ()), sc.get("default", 2))
         if not sc.get("novalidate"):      # (two agents in one process share the hook sink: their events cannot be told apart)
             groups.setdefault(key, []).extend(evs)
         # ---- expectations outside the trace spec
@@ -360,15 +363,20 @@ def judge(ctx, scenarios, results, events, name, default_prop):
     n = 0
     for (mode, pol, default), evs in groups.items():
         n += sum(1 for e in evs if e["ev"] == "reset")
-        ok, tres = validate(ctx, evs, mode, "%s-%s-%s" % (name, mode, "".join(pol)), default=default, policyok=pol)
+        ok, tres = validate(ctx, evs, mode, "%s-%s-%d" % (name, mode, abs(hash(pol)) % 10000), default=default, policyok=list(pol) or None)
         if ok is False:
             prop, key, detail = classify_rejection(evs, tres, default_prop)
             i = (tres.get("hwm") or (1, 0))[0] - 1
             e = evs[i] if 0 <= i < len(evs) else {}
-            if e.get("ev") == "exec" and e.get("k") in ("add", "update", "init") and e.get("ok") and e.get("p") not in pol:
+            pairs = set(pol) if pol else None
+            passes = lambda ev: pairs is None or ("%s/%s" % (ev.get("u"), ev.get("p"))) in pairs
+            if e.get("ev") == "exec" and e.get("k") in ("add", "update", "init") and e.get("ok") and not passes(e):
                 prop, key = "C17", "policy-failing-password-stored:%s" % e["k"]
-            elif e.get("ev") == "exec" and e.get("k") in ("add", "update", "init") and not e.get("ok") and e.get("p") in pol \
-                    and "policy" in str(e.get("err", "")):
+            elif e.get("ev") == "ret" and e.get("k") in ("add", "update") and not e.get("ok") and "policy" in str(e.get("err", "")):
                 prop, key = "C17", "policy-ok-password-refused:%s" % e["k"]
             ctx.violation(prop, key, detail)
+            if prop != ctx.pid:
+                # the rest of this trace could not be judged: this run cannot claim that its own property held
+                ctx.inconclusive.append("a recorded trace of this check is not a behaviour of TraceAgent (reason attributed to %s: %s %s); "
+                                        "the remaining events were not validated" % (prop, key, detail[:300]))
     return n
